@@ -764,30 +764,32 @@ class Ctx(object):
         """Re-decide a discharged obligation with cvc5 (second solver).  `unsat` = agreement,
         `unknown`/timeout is recorded and decides nothing, `sat` is a harness error."""
         eng = self.engine
+        import os
+        import subprocess
+        import tempfile
+        path = None
         try:
-            import cvc5
             s = z3.Solver()
             for p in self.pc:
                 s.add(p)
             s.add(t)
-            txt = s.to_smt2()
-            tm = cvc5.TermManager() if hasattr(cvc5, 'TermManager') else None
-            slv = cvc5.Solver(tm) if tm is not None else cvc5.Solver()
-            slv.setOption('tlimit-per', '10000')
-            slv.setLogic('ALL')
-            parser = cvc5.InputParser(slv)
-            parser.setStringInput(cvc5.InputLanguage.SMT_LIB_2_6, txt, 'obligation')
-            sm = parser.getSymbolManager()
-            res = 'unknown'
-            while True:
-                cmd = parser.nextCommand()
-                if cmd.isNull():
-                    break
-                out = str(cmd.invoke(slv, sm)).strip()
-                if out in ('sat', 'unsat', 'unknown'):
-                    res = out
+            fd, path = tempfile.mkstemp(suffix='.smt2')
+            with os.fdopen(fd, 'w') as f:
+                f.write(s.to_smt2())
+            # separate process: cvc5 does not always honour its time limit (an NRA+UF obligation of C16 ran
+            # for more than 15 minutes under tlimit-per=10000), a subprocess can be killed
+            r = subprocess.run([sys.executable, '-m', 'symx.cvc5_check', path], capture_output=True, text=True, timeout=25,
+                               cwd=os.path.dirname(os.path.dirname(os.path.abspath(__file__))))
+            res = (r.stdout.strip().splitlines() or ['error:no-output'])[-1]
+            if res not in ('sat', 'unsat', 'unknown'):
+                res = 'error:' + res[:40]
+        except subprocess.TimeoutExpired:
+            res = 'unknown(killed after 25s)'
         except Exception as e:      # parser / option differences: recorded, decides nothing
             res = 'error:%s' % type(e).__name__
+        finally:
+            if path is not None and os.path.exists(path):
+                os.remove(path)
         eng.notes.setdefault('cross_engine_cvc5', []).append([eng.config_name, name, res])
         if res == 'sat':
             eng.inconclusive.append({'check': name, 'config': eng.config_name, 'why': 'z3 says unsat, cvc5 says sat'})
